@@ -430,6 +430,9 @@ def gen_history_case(rng, seed, corr_profile=False):
                     why = why or sensitive_now(sess, exact_formula)
         finally:
             mc.reset_globals()
+    run0 = {"obs": obs, "srcs": sess.src_snapshot}
+    if not why and mc.ill_conditioned(case, run0):
+        why = "ill-conditioned"
     run = {"obs": obs, "calls": script.calls[prelude:], "order": sess.order, "pos": sess.pos, "srcs": sess.src_snapshot,
            "corr": sess.corr_matrix}
     return case, run, why
